@@ -76,6 +76,15 @@ type caseT struct {
 	by        []int
 	fim, fnm  []mref
 	in, notin []tf
+	// the rest of the query text
+	whats      []int
+	minMaxHost [2]bool
+	sort       int
+	utc        int64
+	loc        *time.Location
+	settings   string
+	tag        format.MetricMetaTag
+	numResults int
 }
 
 func (c *caseT) filters(sub func(string) string) (fi, fn data_model.TagFilters) {
@@ -99,12 +108,12 @@ func (c *caseT) filters(sub func(string) string) (fi, fn data_model.TagFilters) 
 func (c *caseT) query(sub func(string) string) *api.VerifQuery {
 	fi, fn := c.filters(sub)
 	return &api.VerifQuery{Metric: c.metric, By: c.by, FilterIn: fi, FilterNotIn: fn, Mode: c.mode,
-		Tag: format.MetricMetaTag{Index: 1}, NumResults: 5}
+		Tag: c.tag, NumResults: c.numResults, What: c.whats, MinMaxHost: c.minMaxHost, Sort: c.sort, UtcOffset: c.utc}
 }
 
 func (c *caseT) lod() data_model.LOD {
 	return data_model.LOD{FromSec: c.from, ToSec: c.to, StepSec: c.step, Version: data_model.Version6,
-		HasPreKey: c.hasPreKey, Location: time.UTC}
+		HasPreKey: c.hasPreKey, Location: c.loc}
 }
 
 func (c *caseT) raw(tagX int) bool {
@@ -182,7 +191,28 @@ func genCase(r *verifx.Rng, h *verifx.H) *caseT {
 	c := &caseT{mode: r.Intn(3)}
 	c.from = int64(r.Range(0, 2000000))
 	c.to = c.from + int64(r.Range(0, 100000))
-	c.step = []int64{1, 5, 60, 3600}[r.Intn(4)]
+	c.step = []int64{1, 5, 15, 60, 300, 900, 3600, 14400, 86400, 604800, 2678400, 2678400, 2678400, 7}[r.Intn(14)]
+	c.loc = []*time.Location{time.UTC, time.FixedZone("MSK", 10800), time.FixedZone("Europe/Moscow", 10800), time.FixedZone("Etc/GMT+3", -10800)}[r.Intn(4)]
+	c.utc = []int64{0, 10800, -18000, 3600 * 14}[r.Intn(4)]
+	c.settings = []string{"", " SETTINGS optimize_aggregation_in_order=1", " SETTINGS optimize_aggregation_in_order=0,max_threads=4"}[r.Pick(15, 70, 15)]
+	c.sort = r.Pick(40, 30, 30)
+	c.minMaxHost = [2]bool{r.Chance(1, 3), r.Chance(1, 3)}
+	c.numResults = []int{0, 5, 1000, -1}[r.Pick(10, 60, 25, 5)]
+	// digest kinds 1..9 (the DigestWhat enum; a value >= DigestLast is not a DigestWhat and would index has[DigestLast]bool
+	// out of range before the switch's default is reached); duplicates and avg/stddev/sum/count overlaps matter
+	for k := r.Pick(5, 25, 25, 20, 10, 5, 5, 5); k > 0; k-- {
+		w := r.Range(1, 9)
+		if r.Chance(1, 3) {
+			w = []int{1, 2, 5, 7, 3}[r.Intn(5)]
+		}
+		if r.Chance(1, 40) {
+			w = 0 // a gap: later slots are ignored
+		}
+		c.whats = append(c.whats, w)
+	}
+	if c.whats == nil {
+		c.whats = []int{}
+	}
 	c.hasPreKey = r.Chance(35, 100)
 	var interesting []int // tag indices worth filtering on
 	if r.Chance(80, 100) {
@@ -294,6 +324,23 @@ func genCase(r *verifx.Rng, h *verifx.H) *caseT {
 	}
 	if r.Chance(1, 10) {
 		c.by = append(c.by, format.ShardTagIndex)
+	}
+	if r.Chance(1, 3) { // order of group-by keys is the caller's
+		for i := len(c.by) - 1; i > 0; i-- {
+			j := r.Intn(i + 1)
+			c.by[i], c.by[j] = c.by[j], c.by[i]
+		}
+	}
+	if c.metric != nil && r.Chance(1, 3) {
+		c.metric.ShardFixedKey = 1
+	}
+	// the tag of a tag-values query: flags from a donor metric (Raw/Raw64 are the tag's own), any index incl. string top (-1)
+	donor := &format.MetricMetaValue{Tags: []format.MetricMetaTag{{}, {RawKind: "int", Index: 1}, {RawKind: "int64", Index: 2}}}
+	_ = donor.RestoreCachedInfo()
+	c.tag = donor.Tags[r.Pick(60, 20, 20)]
+	c.tag.Index = int32(interesting[r.Intn(len(interesting))])
+	if r.Chance(1, 8) {
+		c.tag.Index = format.StringTopTagIndex
 	}
 	return c
 }
@@ -1116,12 +1163,39 @@ func main() {
 		if where == "" {
 			return
 		}
+		sharded := 0
+		if c.metric.Sharded() {
+			sharded = 1
+		}
+		h.Op("qx %d %d %s %d %s %d %d %d %s %d %d %d %d", c.step, c.utc, verifx.Hex([]byte(c.loc.String())), sharded,
+			verifx.List(c.whats), b2i(c.minMaxHost[0]), b2i(c.minMaxHost[1]), c.sort, verifx.Hex([]byte(c.settings)),
+			c.tag.Index, b2i(c.tag.Raw()), b2i(c.tag.Raw64()), c.numResults)
+		h.Stat(fmt.Sprintf("sort.%d", c.sort), 1)
+		if c.step == 2678400 {
+			h.Stat("step.month", 1)
+		}
 		guard(h, func() {
-			body, bodyErr = api.VerifBody(q, lod, " SETTINGS optimize_aggregation_in_order=1")
-			bodyB, _ = api.VerifBody(qb, lod, " SETTINGS optimize_aggregation_in_order=1")
+			body, bodyErr = api.VerifBody(q, lod, c.settings)
+			bodyB, _ = api.VerifBody(qb, lod, c.settings)
+			h.Op("body")
+			if bodyErr != nil {
+				h.Obs("body-error")
+				h.Stat("body.error", 1)
+			} else {
+				h.Obs("body %s", verifx.Hex([]byte(body)))
+			}
 		})
 		if bodyErr != nil {
-			h.Viol("builder-error", "query builder failed: %v", bodyErr)
+			valid := true
+			for _, w := range c.whats {
+				if w == 0 {
+					break
+				}
+				valid = valid && w >= 1 && w <= 9
+			}
+			if valid {
+				h.Viol("builder-error", "query builder failed: %v", bodyErr)
+			}
 		}
 		lexOp(h, "where", where)
 		wt := structureOracle(h, "where", where, whereB, back)
